@@ -62,6 +62,14 @@ func c13Gen(r *driver.Rand, thorough bool) *driver.Plan {
 			p.Consumers[0].DelaysMs = append(p.Consumers[0].DelaysMs, driver.Pick(r, 0, 0, 1, iv/2, iv+1))
 		}
 	}
+	if r.Chance(1, 10) {
+		// a pause of more than a minute, on either side
+		if r.Chance(1, 2) {
+			p.Producers[0].DelaysMs = []int{0, 0, driver.Pick(r, 61000, 125000), 0, 0, 0, 0, 0}
+		} else {
+			p.Consumers[0].DelaysMs = []int{0, 0, 0, driver.Pick(r, 61000, 125000), 0, 0, 0, 0, 0, 0}
+		}
+	}
 	switch r.Intn(8) {
 	case 0:
 		p.CancelStep = r.Intn(40 + 12*n)
@@ -72,6 +80,9 @@ func c13Gen(r *driver.Rand, thorough bool) *driver.Plan {
 		}
 	case 2:
 		p.CancelAtEnd = true
+	}
+	if p.CancelMs > 0 && r.Chance(1, 2) {
+		p.SetX("ctx_deadline", 1) // the context carries a deadline (cancelled one nanosecond before it)
 	}
 	genSched(r, p)
 	return p
@@ -127,7 +138,7 @@ func c13Final(e *driver.Env) {
 		if e.Cancelled.Load() && o.Seq >= e.CancelSeq {
 			break
 		}
-		ts = append(ts, o.VT)
+		ts = append(ts, o.VT-s.Start) // time 0 is the call of Throttling
 	}
 	// C13.b: no window of length interval sees more than 2*ops+1+c deliveries
 	w := 2*ops + 1 + c
